@@ -12,7 +12,7 @@ use super::{SecondaryStorage, SecondaryTable, Snapshot};
 use crate::catalog::find_sort_key_id;
 use crate::storage::secondary::column::ColumnSeekPosition;
 use crate::storage::secondary::concat_iterator::ConcatIterator;
-use crate::storage::secondary::manifest::{AddRowSetEntry, DeleteRowsetEntry};
+use crate::storage::secondary::manifest::{AddRowSetEntry, DeleteDVEntry, DeleteRowsetEntry};
 use crate::storage::secondary::merge_iterator::MergeIterator;
 use crate::storage::secondary::rowset::{DiskRowset, RowsetBuilder, RowsetWriter};
 use crate::storage::secondary::statistics::create_statistics_global_aggregator;
@@ -175,8 +175,19 @@ impl Compactor {
             changes.push(add_rowset_op);
         }
 
-        // Remove old RowSets
-        // and TODO: remove old DVs
+        // Remove old RowSets and their DVs. The deletions are already applied to the new RowSet, and
+        // a DV left in the manifest would hide the rows of a later RowSet that gets the same id.
+        for x in &selected_rowsets {
+            if let Some(dvs) = snapshot.get_dvs_of(table.table_id(), x.rowset_id()) {
+                changes.extend(dvs.iter().map(|dv_id| {
+                    EpochOp::DeleteDV(DeleteDVEntry {
+                        dv_id: *dv_id,
+                        rowset_id: x.rowset_id(),
+                        table_id: table.table_ref_id,
+                    })
+                }));
+            }
+        }
         changes.extend(selected_rowsets.iter().map(|x| {
             EpochOp::DeleteRowSet(DeleteRowsetEntry {
                 rowset_id: x.rowset_id(),
